@@ -175,7 +175,7 @@ pub fn gen_history(ch: &mut Chooser, max_steps: usize) -> History {
     let vecs = ["v1", "v2", "v3", "v4"];
     let mut tick = 0;
     for _ in 0..steps {
-        let op = ch.weighted(&[4, 6, 3, 3, 4, 5, 6, 4, 3, 3, 2, 2, 4, 2, 1, 1, 1]);
+        let op = ch.weighted(&[4, 6, 3, 3, 4, 5, 6, 4, 3, 3, 2, 2, 4, 2, 1, 1, 1, 1, 1]);
         match op {
             15 => {
                 // a variable is assigned a new object that is equal in content to the one it holds: the old object
@@ -217,6 +217,85 @@ pub fn gen_history(ch: &mut Chooser, max_steps: usize) -> History {
                 h.forms.push(Form::Expr(Expr::App(Box::new(app("vector-ref", vec![var(&hold), Expr::Int(1)])), vec![Expr::Int(2)])));
                 h.forms.push(Form::Expr(Expr::App(Box::new(app("vector-ref", vec![var(&hold), Expr::Int(0)])), vec![])));
                 h.label("closure-escapes-through-a-side-effect");
+            }
+            17 => {
+                // a defined procedure that mentions its own name, while the name is assigned / defined again and the old
+                // procedure stays reachable through another name: the name designates one top-level variable throughout
+                let k = h.forms.len();
+                match ch.below(3) {
+                    0 => {
+                        let (f, a) = (format!("once{}", k), format!("old-once{}", k));
+                        h.forms.push(dp(&f, &[], vec![set(&f, lam(&[], vec![sym("later")])), sym("first")]));
+                        h.forms.push(d(&a, var(&f)));
+                        for who in [&f, &f, &a, &f] {
+                            h.forms.push(Form::Expr(app(who, vec![])));
+                        }
+                    }
+                    1 => {
+                        let (f, a) = (format!("walk{}", k), format!("old-walk{}", k));
+                        let body = Expr::If(
+                            Box::new(app("=", vec![var("n"), Expr::Int(0)])),
+                            Box::new(sym("stopped")),
+                            Some(Box::new(app(&f, vec![app("-", vec![var("n"), Expr::Int(1)])]))),
+                        );
+                        h.forms.push(dp(&f, &["n"], vec![body]));
+                        h.forms.push(d(&a, var(&f)));
+                        h.forms.push(Form::Expr(app(&a, vec![Expr::Int(2)])));
+                        if ch.chance(1, 2) {
+                            h.forms.push(Form::Expr(set(&f, lam(&["n"], vec![app("list", vec![sym("replaced"), var("n")])]))));
+                        } else {
+                            h.forms.push(dp(&f, &["n"], vec![app("list", vec![sym("replaced"), var("n")])]));
+                        }
+                        h.forms.push(Form::Expr(app("list", vec![app(&a, vec![Expr::Int(2)]), app(&a, vec![Expr::Int(0)]), app(&f, vec![Expr::Int(5)])])));
+                    }
+                    _ => {
+                        // the procedure counts in a variable of its own name's sibling and re-installs itself
+                        let (f, c) = (format!("self{}", k), format!("self-count{}", k));
+                        h.forms.push(d(&c, Expr::Int(0)));
+                        h.forms.push(d(&f, lam(&[], vec![inc(&c, Expr::Int(1)), Expr::If(Box::new(app(">", vec![var(&c), Expr::Int(1)])), Box::new(set(&f, Expr::Int(7))), None), var(&c)])));
+                        h.forms.push(Form::Expr(app(&f, vec![])));
+                        h.forms.push(Form::Expr(app(&f, vec![])));
+                        h.forms.push(Form::Expr(var(&f)));
+                    }
+                }
+                h.label("procedure-refers-to-its-own-name-across-reassignment");
+            }
+            18 => {
+                // a variable (global, parameter, let-bound) whose current value is a builtin procedure is assigned
+                let k = h.forms.len();
+                // (the model does not know the identity of builtins: they are told apart by what they compute)
+                let prims = ["+", "max", "*", "min", "-"];
+                let probe = |f: Expr| Expr::App(Box::new(f), vec![Expr::Int(7), Expr::Int(2)]);
+                let (p, q) = (*ch.pick(&prims), *ch.pick(&prims));
+                match ch.below(3) {
+                    0 => {
+                        let (op, user) = (format!("op{}", k), format!("use-op{}", k));
+                        h.forms.push(d(&op, var(p)));
+                        h.forms.push(dp(&user, &[], vec![app("procedure?", vec![var(&op)])]));
+                        h.forms.push(Form::Expr(set(&op, var(q))));
+                        h.forms.push(Form::Expr(app("list", vec![app(&user, vec![]), probe(var(&op))])));
+                        h.forms.push(Form::Expr(set(&op, Expr::Int(3))));
+                        h.forms.push(Form::Expr(app("list", vec![app(&user, vec![]), var(&op)])));
+                    }
+                    1 => {
+                        // the parameter of a generator holds the builtin; one closure replaces it, the other reads it
+                        let (mk, pr) = (format!("mk-op{}", k), format!("ops{}", k));
+                        h.forms.push(dp(&mk, &["f"], vec![app("list", vec![lam(&["g"], vec![set("f", var("g")), Expr::Int(0)]), lam(&[], vec![var("f")])])]));
+                        h.forms.push(d(&pr, app(&mk, vec![var(p)])));
+                        h.forms.push(Form::Expr(probe(Expr::App(Box::new(app("cadr", vec![var(&pr)])), vec![]))));
+                        h.forms.push(Form::Expr(Expr::App(Box::new(app("car", vec![var(&pr)])), vec![var(q)])));
+                        h.forms.push(Form::Expr(probe(Expr::App(Box::new(app("cadr", vec![var(&pr)])), vec![]))));
+                        h.forms.push(Form::Expr(Expr::App(Box::new(app("car", vec![var(&pr)])), vec![Expr::Int(5)])));
+                        h.forms.push(Form::Expr(Expr::App(Box::new(app("cadr", vec![var(&pr)])), vec![])));
+                    }
+                    _ => {
+                        h.forms.push(Form::Expr(Expr::Let(
+                            vec![("held".into(), var(p))],
+                            Box::new(Body { defs: vec![], exprs: vec![set("held", Expr::Int(1)), set("held", app("+", vec![var("held"), Expr::Int(1)])), var("held")] }),
+                        )));
+                    }
+                }
+                h.label("variable-holding-a-builtin-is-assigned");
             }
             14 => {
                 // a vector stored into one of its own slots: the slot is one more name for the same vector. Only
